@@ -353,6 +353,21 @@ func runC18(r *mc.Run) {
 			o.Validation.TdQuoteBodyOptions.MrTd = append([]byte(nil), p.Body[136:184]...)
 			o.Validation.TdQuoteBodyOptions.AnyMrTd = [][]byte{append([]byte(nil), p.Body[136:184]...)}
 		}})
+	// a field pinned to exactly the value the quote carries (a no-op for a legal quote; the architectural masks hold
+	// whether or not the field is pinned)
+	pinFrom := len(pfaults)
+	pfaults = append(pfaults,
+		c18fault{"td-attributes-pinned-to-the-quotes-own-value", func(p *world.QuoteParts, o *rtmr.ParseTdxCcelOpts) {
+			o.Validation.TdQuoteBodyOptions.TdAttributes = append([]byte(nil), p.Body[120:128]...)
+		}},
+		c18fault{"xfam-pinned-to-the-quotes-own-value", func(p *world.QuoteParts, o *rtmr.ParseTdxCcelOpts) {
+			o.Validation.TdQuoteBodyOptions.Xfam = append([]byte(nil), p.Body[128:136]...)
+		}},
+		c18fault{"td-attributes+xfam-pinned-to-the-quotes-own-values", func(p *world.QuoteParts, o *rtmr.ParseTdxCcelOpts) {
+			o.Validation.TdQuoteBodyOptions.TdAttributes = append([]byte(nil), p.Body[120:128]...)
+			o.Validation.TdQuoteBodyOptions.Xfam = append([]byte(nil), p.Body[128:136]...)
+		}})
+	pinTo := len(pfaults)
 	// the three owner-supplied identities (all 48 bytes) pinned to the quote's own values — a control — and
 	// cross-wired: each expectation holding another identity's value of the same quote
 	ownerFrom := len(pfaults)
@@ -400,6 +415,11 @@ func runC18(r *mc.Run) {
 			cases = append(cases, c18case{v, p, -1, 0})
 		}
 	}
+	// lg bits 4 / 5: the quote's TD_ATTRIBUTES has a reserved bit set / its XFAM a forbidden bit
+	for p := pinFrom; p < pinTo; p++ {
+		cases = append(cases, c18case{0, p, -1, 16}, c18case{0, p, -1, 32}, c18case{0, p, -1, 48})
+	}
+	cases = append(cases, c18case{0, 0, -1, 16}, c18case{0, 0, -1, 32})
 	// lg bits 2 / 3: the header carries PCE SVN 5 / QE SVN 1 (bytes 05 00 / 01 00) resp. PCE SVN 0x0201 / QE SVN 0x0100
 	for p := svnFrom; p < svnTo; p++ {
 		cases = append(cases, c18case{0, p, -1, 4}, c18case{0, p, -1, 8})
@@ -480,6 +500,12 @@ func runC18(r *mc.Run) {
 		if c.lg&4 != 0 {
 			id += ",header-svns=pce5/qe1"
 		}
+		if c.lg&16 != 0 {
+			id += ",td-attributes-reserved-bit4"
+		}
+		if c.lg&32 != 0 {
+			id += ",xfam-forbidden-bit3"
+		}
 		if c.lg&8 != 0 {
 			id += ",header-svns=pce0x0201/qe0x0100"
 		}
@@ -490,6 +516,12 @@ func runC18(r *mc.Run) {
 		p := baseParts()
 		if c.lg&4 != 0 {
 			copy(p.Header[8:12], []byte{5, 0, 1, 0})
+		}
+		if c.lg&16 != 0 {
+			p.Body[120] |= 0x10
+		}
+		if c.lg&32 != 0 {
+			p.Body[128] |= 0x08
 		}
 		if c.lg&8 != 0 {
 			copy(p.Header[8:12], []byte{1, 2, 0, 1})
